@@ -60,6 +60,7 @@ Apply(e) ==
     [] e.ev = "Quiesce"        -> Same /\ Note(e, Chk_Quiesce(e.blocked))
     [] e.ev = "Panic"          -> Same /\ Note(e, Chk_Panic)
     [] e.ev = "Census"         -> Same /\ Note(e, Chk_Census(e.n))
+    [] e.ev = "CensusT"        -> Same /\ Note(e, Chk_CensusT(e.n))
     [] e.ev = "End"            -> Same /\ Note(e, {})
 
 KnownEv == {"Begin","Cancel","Winddown","Fault","CInvokeCall","CInvokeRet","CNewStreamCall",
@@ -67,7 +68,7 @@ KnownEv == {"Begin","Cancel","Winddown","Fault","CInvokeCall","CInvokeRet","CNew
             "CRecvCall","CRecvRet","CHeaderCall","CHeaderRet","CTrailerRet","HStart",
             "HRecvCall","HRecvRet","HSendCall","HSendRet","HSetHeaderCall","HSetHeaderRet",
             "HSendHeaderCall","HSendHeaderRet","HSetTrailerRet","HCtxWait","HReturn",
-            "Quiesce","Panic","Census","End"}
+            "Quiesce","Panic","Census","CensusT","End"}
 
 TInit ==
   /\ Init0("unary", "inproc", <<>>)
